@@ -187,12 +187,34 @@ func verifRunOnce(c *Cluster) {
 	}
 	// natively select picks at random among ready cases: let the loop drain the event queues, then stop it
 	fin := make(chan struct{})
-	go func() { c.run(); close(fin) }()
+	var crashed any
+	go func() {
+		// a panic of the run loop is handed to the harness goroutine (in production it ends the process)
+		defer func() {
+			crashed = recover()
+			close(fin)
+		}()
+		c.run()
+	}()
 	for len(c.fo.healthCheck) > 0 || len(c.fo.electionVote) > 0 {
+		select {
+		case <-fin:
+			if crashed != nil {
+				panic(crashed)
+			}
+			return
+		default:
+		}
 		time.Sleep(time.Millisecond)
 	}
-	c.fo.done <- true
+	select {
+	case c.fo.done <- true:
+	case <-fin:
+	}
 	<-fin
+	if crashed != nil {
+		panic(crashed)
+	}
 }
 
 // A node grants a vote iff the request's term is newer than its own, adopts that term, and therefore
@@ -232,7 +254,10 @@ func Harness_C17_health_step() {
 	hTerm := verifNondetInt("healthTerm")
 	verifAssume(hTerm >= 0 && hTerm < 1<<30)
 	sameSig := verifNondetBool("sameSignature")
-	h := &ClusterHealth{Leader: "b", Term: hTerm, Signature: sig0, Nodes: []string{"a", "b"}}
+	// the leader's list of live nodes: with or without this node (a leader that missed this node's answers for a
+	// while counts it as failed, yet its health checks keep arriving)
+	nodes := [][]string{{"a", "b"}, {"b", "c"}, {"b"}}[verifChoose("leadersNodeList", 3)]
+	h := &ClusterHealth{Leader: "b", Term: hTerm, Signature: sig0, Nodes: nodes}
 	if !sameSig {
 		h.Signature = "other-signature"
 	}
@@ -248,7 +273,7 @@ func Harness_C17_health_step() {
 		verifAssert(c.fo.term == hTerm && c.fo.leader == "b", "accepted-health-check-adopts-leader-and-term")
 		if !sameSig && twice {
 			want := rh.New(clusterHashReplicas, nil)
-			want.Add("a", "b")
+			want.Add(nodes...)
 			verifAssert(c.ring.Signature() == want.Signature(), "node-list-and-ring-adopted-from-the-leader")
 		} else if sameSig {
 			verifAssert(c.ring.Signature() == sig0, "ring-unchanged-when-signatures-agree")
